@@ -14,3 +14,21 @@ package gelf
 //@   ensures forall k :: len(encodeBuf) <= k && k < len(result) ==> (('a' <= result[k] && result[k] <= 'z') || ('A' <= result[k] && result[k] <= 'Z') || ('0' <= result[k] && result[k] <= '9') || result[k] == '_' || result[k] == '-' || result[k] == '.')
 //@   loop 1 invariant len(encodeBuf) > old(len(encodeBuf))
 //@   loop 1 invariant forall k :: old(len(encodeBuf)) <= k && k < len(encodeBuf) ==> (('a' <= encodeBuf[k] && encodeBuf[k] <= 'z') || ('A' <= encodeBuf[k] && encodeBuf[k] <= 'Z') || ('0' <= encodeBuf[k] && encodeBuf[k] <= '9') || encodeBuf[k] == '_' || encodeBuf[k] == '-' || encodeBuf[k] == '.')
+
+// makeTimestampField: what is written as "timestamp" is a JSON number - finite.
+// up_finite is an uninterpreted predicate: the clock and parsed times are finite
+// (assumed at their calls), division keeps a finite value finite, math.IsInf /
+// IsNaN are its negation (assumed), and the value read from the event is arbitrary.
+
+//@ func (*Plugin).makeTimestampField
+//@   assume at "ts := now" up_finite(now)
+//@   callee AsFloat() (f)
+//@     pure
+//@   callee IsInf(f, sign) (r)
+//@     pure
+//@     ensures sign == 0 ==> (r || up_isnan(f)) == !up_finite(f)
+//@   callee IsNaN(f) (r)
+//@     pure
+//@     ensures r == up_isnan(f)
+//@   callee MutateToFloat(f)
+//@     requires up_finite(f)
